@@ -60,6 +60,10 @@ fn pipeline_breaks(m: &AbsModel, wsconst: &str, text: &str) -> Result<Vec<usize>
 fn run_case(line: &str, fails: &mut Vec<(String, String)>) -> String {
     let t: Vec<&str> = line.split(' ').collect();
     match t.as_slice() {
+        ["BIG", rest @ ..] => {
+            let _ = run_case(&rest.join(" "), fails);
+            "big".into()
+        }
         ["TK", m, ws, h, _clusters, rest @ ..] => {
             let c16 = rest.first() == Some(&"c16");
             let Some(m) = AbsModel::parse(m) else { return "bad-case".into() };
@@ -247,6 +251,23 @@ fn gen(out: &mut dyn Write, thorough: bool, seed: u64) {
     for ws in &all_ws {
         let text = format!("{}12ab あいカナ漢字\r\n", gen_text(&mut r, &m, &alpha, 6));
         writeln!(out, "TK {mt} {ws} {} {} c16", hexs(&text), clusters_of(&text)).unwrap();
+    }
+    // large texts (oracle-only): more than 64 KiB with line breaks, and a dictionary word that spans a line break
+    {
+        let (mut m, alpha) = gen_model(&mut r, &opts);
+        let w: String = format!("\n{}{}", alpha[0], alpha[alpha.len() - 1]);
+        m.dict.push((w.clone(), vec![0, 0, 30000, 0], String::new()));
+        m.dict.push((format!("{}\r", alpha[0]), vec![30000, -30000, 0], String::new()));
+        let mut text = String::new();
+        while text.len() < 70_000 {
+            text.push_str(&gen_text(&mut r, &m, &alpha, 20));
+            text.push_str(if text.len() % 3 == 0 { "\r\n" } else { "\n" });
+            text.push(alpha[0]);
+            text.push(alpha[alpha.len() - 1]);
+        }
+        for ws in ["-", "D", "O"] {
+            writeln!(out, "BIG TK {} {ws} {} - c16", m.to_text(), hexs(&text)).unwrap();
+        }
     }
     writeln!(out, "TK {mt} X {} {} c16", hexs("ab"), clusters_of("ab")).unwrap();
     writeln!(out, "TK {mt} - {} {} c16", hexs("a\0b"), clusters_of("a\0b")).unwrap();
